@@ -458,9 +458,13 @@ def r204(facts, res):
         for bb, t, st in c15.sources(body, want):
             n += 1
             fn = strip_generics(body.root_parent or body.path)
-            idx = per.get((fn, cname(t)), 0)
-            per[(fn, cname(t))] = idx + 1
-            key = '%s/%s#%d' % (fn, cname(t), idx)
+            # keyed by WHAT is iterated (the container's key type), not by how the iterator is obtained (`for .. in &m`, `m.iter()`,
+            # `m.keys()` are the same source)
+            targs = c15.top_level_args(st.lstrip('&').replace('mut ', '', 1).strip())
+            kty = re.sub(r'\b[a-z_][a-z_0-9]*::', '', targs[0]) if targs else '?'
+            idx = per.get((fn, kty), 0)
+            per[(fn, kty)] = idx + 1
+            key = '%s/hash-iter[%s]#%d' % (fn, kty.replace(' ', ''), idx)
             verdict, desc, problems = c15.classify(body, facts, bb, t, st)
             if verdict == 'auto':
                 res.ok(R, key, loc_of(body, bb), 'order-insensitive: ' + desc)
